@@ -97,6 +97,11 @@ CHECKS = {
     "4/C14", "Coq 8.16.1 kernel, no axioms (closed under the global context); " + CORR + "index widths are tags (overflow not modelled); COO->CSC and CSC sorting throw in this build (macro off) and are modelled as such; duplicates excluded.",
     "Coq proofs over nat/Z + correspondence + dense-reconstruction oracle"),
  "C15": CHECKS_C15,
+ "C16": C("proof",
+    "16 axiom-free theorems on a pointer-level model of TypeErased (pool of wrappers, payload locations small-buffer/heap/external, block table, construct/destroy and allocate/free ledger), mirroring type-erasure.hpp statement by statement: the ledger invariant is inductive over ARBITRARY operation sequences for all trait configurations (no double destroy, no use of dead objects, every block freed through its allocator with its size, unique owner, small payload in own buffer, no leak once all wrappers are destroyed), "
+    "dispatch to own object, copies independent, references alias, const / wrong-type access reported with state unchanged, throwing copy leaves the target empty. Correspondence: the real TypeErased<VT,A,64> with instrumented payloads (16/64/80 bytes) and counting allocators (all 8 trait combinations), exhaustive short histories + random, ledger snapshot after every op.",
+    "4/C16", "Coq 8.16.1 kernel, no axioms; " + CORR + "memory safety proper is observed by the driver's own address/block registry (no sanitizer), not proved; vtable contents and throwing allocators not exercised.",
+    "Coq inductive invariant over operation histories + snapshot correspondence against the instrumented implementation"),
  "C17": C("proof",
     "13 axiom-free theorems on a byte-level model of the stream and the 64-byte chunked reader: for ALL field lengths, row lengths, chunk alignments and comment lengths the reader returns exactly the row spec or a read error (never altered numbers), leaves the stream at the next row, over-long fields are rejected, print->read round trip under stated from_chars/to_chars premises (proved outright for integers). "
     "Correspondence on the real reader (values, bytes left, stream flags); oracle: bit-exact round trips for double/float/long double, corruptions, alignments.",
